@@ -76,13 +76,26 @@ def call_sites(prog):
         am = alias_map(m)
         # simple local aliases:  rm = os.remove
         local_alias = {}
+        pairs = []
         for node in ast.walk(m.tree):
-            if isinstance(node, ast.Assign) and len(node.targets) == 1 and isinstance(node.targets[0], ast.Name):
-                d = dotted(node.value) if isinstance(node.value, (ast.Attribute, ast.Name)) else None
+            if isinstance(node, ast.Assign) and len(node.targets) == 1:
+                t, v = node.targets[0], node.value
+                if isinstance(t, ast.Name):
+                    pairs.append((t, v))
+                elif isinstance(t, (ast.Tuple, ast.List)) and isinstance(v, (ast.Tuple, ast.List)) and len(t.elts) == len(v.elts):
+                    # join, isfile, remove = os.path.join, os.path.isfile, os.remove
+                    pairs.extend((a, b) for a, b in zip(t.elts, v.elts) if isinstance(a, ast.Name))
+            elif isinstance(node, ast.NamedExpr) and isinstance(node.target, ast.Name):
+                pairs.append((node.target, node.value))
+        for _ in range(2):                 # (an alias of an alias)
+            for t, v in pairs:
+                d = dotted(v) if isinstance(v, (ast.Attribute, ast.Name)) else None
                 if d:
                     head = d.split(".")[0]
                     if head in am:
-                        local_alias[node.targets[0].id] = am[head] + d[len(head):]
+                        local_alias[t.id] = am[head] + d[len(head):]
+                    elif head in local_alias and t.id not in local_alias:
+                        local_alias[t.id] = local_alias[head] + d[len(head):]
         for node in ast.walk(m.tree):
             if isinstance(node, ast.Call):
                 d = dotted(node.func)
